@@ -147,6 +147,10 @@ func cmdFunc(args []string) int {
 				if *verbose {
 					fmt.Printf("  %-8s %-7s %5.2fs %s\n", o.Status, o.Solver, o.TimeS, o.Name)
 				}
+				if o.Status != "sat" && *dump != "" {
+					os.MkdirAll(*dump, 0o755)
+					os.WriteFile(filepath.Join(*dump, sanitize(o.Name)+".smt2"), []byte(o.Query(true)), 0o644)
+				}
 				continue
 			}
 			if o.Status == "unsat" {
